@@ -20,7 +20,7 @@ from harness import values as V
 from harness.core import cbool, clist, cnat, copt, cstr, err_name
 
 PID = "C17"
-FAILING = "(C17.failing RES)"
+FAILING = "(C17.failing RES DIRSTORES)"
 SHARD = 300
 RULE = ("name lists over an adversarial alphabet (reserved method names, names shaped like generated "
         "accessors a__2 / col3_ / cols, leading digits, only-symbols, empty, None, ints, unicode incl. KELVIN "
@@ -403,8 +403,12 @@ def _meta():
     from serif.table import Row
     res = sorted(_get_reserved_names())
     pub = sorted({n for c in (Vector, Table) for n in dir(c) if not n.startswith("_")})
+    # which of the two modelled __dir__ variants is this tree? (validated by every history case with dir())
+    t = Table([Vector([1], name="a")])
+    t.cols()[0].name = "z"
+    dir(t)
     return {"reserved": res, "public": pub, "row_public": sorted(n for n in dir(Row) if not n.startswith("_")),
-            "crc": zlib.crc32(" ".join(res).encode())}
+            "dir_stores": "z" in t._column_map, "crc": zlib.crc32(" ".join(res).encode())}
 
 
 def observe(case):
@@ -444,7 +448,8 @@ def __getattr__(name):           # PRELUDE carries the reserved set read from th
         res = _meta_cached()["reserved"]
         return ("From Coq Require Import List String.\nImport ListNotations.\nOpen Scope string_scope.\n"
                 "From Serif Require Import Base.PyVal Model.Naming Corr.C17.\n"
-                "Definition RES : list str := ss " + clist(cstr(_low(r)) for r in res) + ".")
+                "Definition RES : list str := ss " + clist(cstr(_low(r)) for r in res) + ".\n"
+                "Definition DIRSTORES : bool := " + cbool(_meta_cached()["dir_stores"]) + ".")
     raise AttributeError(name)
 
 
@@ -722,14 +727,23 @@ def known(case, obs, why):
     if case.get("op") != "hist" or not why.startswith("history-stale: op#"):
         return None
     k = int(why[len("history-stale: op#"):].split(" ")[0])
-    ops = case["ops"][:k]
+    ops, steps = case["ops"][:k], obs["steps"][:k]
+
+    def rebuilds(o, st):          # does this step leave a freshly stored map behind?
+        if "skip" in st:
+            return False
+        if o[0] in ("rename", "renames"):
+            return st["res"] == ["ok"]
+        if o[0] == "replace":     # the indexed form (name__N) consults nothing and rebuilds only on success
+            return st["res"][0] == "idx" or re.fullmatch(r".*__\d+", st["lit"]) is None
+        return o[0] in ("append", "getattr", "row", "setitem")
+
     for d, o in enumerate(ops):
-        if o[0] == "dir" and any(p[0] == "view" for p in ops[:d]):
-            # no rebuild between the live rename and the dir() call
-            last_view = max(i for i, p in enumerate(ops[:d]) if p[0] == "view")
-            between = ops[last_view + 1:d]
-            if not any(p[0] in ("rename", "renames", "append", "getattr", "row", "setitem", "replace") for p in between):
-                return "NEW-C17-1"
+        if o[0] != "dir" or "skip" in steps[d]:
+            continue
+        views = [i for i, p in enumerate(ops[:d]) if p[0] == "view" and "skip" not in steps[i]]
+        if views and not any(rebuilds(p, s) for p, s in zip(ops[views[-1] + 1:d], steps[views[-1] + 1:d])):
+            return "NEW-C17-1"
     return None
 
 
